@@ -184,15 +184,28 @@ fn check_message(flavour: &str, msg: &str, kind: &RKind, loc: &Path, payload_see
         }
     }
     if let Some(sugg) = &fx.suggestion {
-        let has = msg.contains("did you mean");
-        match sugg {
-            None if has => {
-                return Err((format!("C14|{flavour}|spurious-suggestion|{cls}"), format!("message {msg:?} suggests a name although none is close enough")));
+        // wording-free: every accepted alternative is quoted exactly once, the due suggestion once more
+        if let RKind::UnknownKey { accepted, .. } | RKind::UnknownValue { accepted, .. } = kind {
+            let path_txt = if json_flavour { render_json(loc) } else { render_query(loc) };
+            for a in accepted {
+                if accepted.iter().filter(|x| *x == a).count() > 1 || *a == path_txt {
+                    continue;
+                }
+                let n = msg.matches(&format!("`{a}`")).count();
+                let due = sugg.as_deref() == Some(a.as_str());
+                if n < 1 + due as usize {
+                    return Err((
+                        format!("C14|{flavour}|suggestion-missing-or-wrong|{cls}"),
+                        format!("message {msg:?} should name `{a}` {} time(s) (it is {}the closest accepted name within the typo budget)", 1 + due as usize, if due { "" } else { "not " }),
+                    ));
+                }
+                if n > 1 + due as usize {
+                    return Err((
+                        format!("C14|{flavour}|spurious-suggestion|{cls}"),
+                        format!("message {msg:?} names `{a}` {n} times although {}", if due { "it should be suggested once" } else { "no suggestion of it is due" }),
+                    ));
+                }
             }
-            Some(s) if !has || !msg.contains(&format!("did you mean `{s}`")) => {
-                return Err((format!("C14|{flavour}|suggestion-missing-or-wrong|{cls}"), format!("message {msg:?} should suggest `{s}`")));
-            }
-            _ => {}
         }
     }
     // remove the detail message and every quoted fact (exact text); what is left in backticks is the path
